@@ -175,7 +175,9 @@ func CharacterRatio(style_ pr.ElementStyle, cache pr.TextRatioCache, isCh bool, 
 		return 1
 	}
 
-	style := NewTextStyle(style_, true) // avoid recursion for letter-spacing and word-spacing properties
+	// avoid recursion for the properties which are lengths (font-size, tab-size,
+	// hyphenate-limit-zone, letter-spacing and word-spacing)
+	style := newTextStyleNoLengths(style_)
 	key := style.cacheKey()
 	if f, ok := cache.Get(key, isCh); ok {
 		return f
